@@ -105,6 +105,15 @@ theorem C03_delimited (opt : Bool) (data : Bytes) (toks : Tape) (h : parse opt d
     WfBinTape toks :=
   C06_bin_inv opt data toks h
 
+/-- the same in index form: on every accepted tape each container start at `i` (never 0) points to
+a later `End` that points back, and each `End` points back to the container that points to it. -/
+theorem C03_delimited_links (opt : Bool) (data : Bytes) (toks : Tape) (h : parse opt data = .ok toks) :
+    (∀ i e, (toks[i]? = some (.array e) ∨ toks[i]? = some (.object e)) →
+        i ≠ 0 ∧ e ≠ 0 ∧ i < e ∧ e < toks.length ∧ toks[e]? = some (.end_ i)) ∧
+    (∀ j i, toks[j]? = some (.end_ i) →
+        i ≠ 0 ∧ i < j ∧ (toks[i]? = some (.array j) ∨ toks[i]? = some (.object j))) :=
+  C06_bin_links toks (C06_bin_inv opt data toks h)
+
 example : ∃ toks, parse true [0x82, 0x2d, 0x01, 0x00, 0x03, 0x00, 0x0c, 0x00, 5, 0, 0, 0, 0x04, 0x00] = .ok toks ∧
     toks = [.token 0x2d82, .array 3, .i32 5, .end_ 1] := ⟨_, rfl, rfl⟩
 
